@@ -589,16 +589,45 @@ func SetValue(dest, v reflect.Value) {
 		// a map of an unnamed type travels untyped and is read as map[interface{}]interface{};
 		// as an element of a list or map it is converted to the declared map type entry by entry
 		if v.Kind() == reflect.Map {
-			m := reflect.MakeMapWithSize(dest.Type(), v.Len())
-			for _, k := range v.MapKeys() {
-				setMapEntry(m, k.Interface(), v.MapIndex(k).Interface())
-			}
-			dest.Set(m)
+			dest.Set(convertMap(dest.Type(), v, nil))
 			return
 		}
 	}
 
 	dest.Set(v)
+}
+
+// convertMap builds a map of type t from the entries of m. Each source map is converted once per
+// target type, also when it is reached again through a back-reference - from inside itself (a map
+// that contains itself) or from a sibling - so the work stays proportional to the input.
+func convertMap(t reflect.Type, m reflect.Value, done map[_convKey]reflect.Value) reflect.Value {
+	key := _convKey{m.Pointer(), t}
+	if r, ok := done[key]; ok {
+		return r
+	}
+	if done == nil {
+		done = make(map[_convKey]reflect.Value)
+	}
+	out := reflect.MakeMapWithSize(t, m.Len())
+	done[key] = out
+	for _, k := range m.MapKeys() {
+		val := EnsureRawValue(m.MapIndex(k).Interface())
+		// a back-reference to an untyped map arrives as a pointer to it
+		for val.IsValid() && (val.Kind() == reflect.Interface || val.Kind() == reflect.Ptr) && !val.IsNil() {
+			val = val.Elem()
+		}
+		if t.Elem().Kind() == reflect.Map && val.IsValid() && val.Kind() == reflect.Map && val.Type() != t.Elem() {
+			out.SetMapIndex(mapOperand(t.Key(), k.Interface()), convertMap(t.Elem(), val, done))
+			continue
+		}
+		setMapEntry(out, k.Interface(), m.MapIndex(k).Interface())
+	}
+	return out
+}
+
+type _convKey struct {
+	ptr uintptr
+	typ reflect.Type
 }
 
 func AddrEqual(x, y interface{}) bool {
